@@ -1,0 +1,113 @@
+"""Verification hooks (off unless PYTRAPIC_VERIF=1).
+
+Events are appended to the in-memory list `events` and, when PYTRAPIC_VERIF_TRACE names a
+file, written to it as one JSON object per line.  Nothing here changes what the compiler
+computes or returns.
+"""
+
+import json
+import os
+
+events = []
+_seq = 0
+_depth = 0
+
+
+def enabled() -> bool:
+    return os.environ.get("PYTRAPIC_VERIF") == "1"
+
+
+def reset():
+    global _seq, _depth
+    events.clear()
+    _seq = 0
+    _depth = 0
+
+
+def emit(ev: str, **fields):
+    global _seq
+    if not enabled():
+        return
+    _seq += 1
+    rec = {"seq": _seq, "pid": os.getpid(), "ev": ev}
+    rec.update(fields)
+    events.append(rec)
+    path = os.environ.get("PYTRAPIC_VERIF_TRACE")
+    if path:
+        try:
+            with open(path, "a", encoding="utf-8") as f:
+                f.write(json.dumps(rec, default=repr) + "\n")
+        except OSError:
+            pass
+
+
+def _vname(reg):
+    """Name of a register operand: the virtual name before allocation, the physical after."""
+    code_expr = getattr(reg, "code_expr", None)
+    if isinstance(code_expr, str):
+        return code_expr
+    return None
+
+
+def _stream(data, code):
+    from .types import IC10Register
+
+    owner = {}
+    for fname, func in data.functions.items():
+        for ins in func.code:
+            owner[id(ins)] = fname
+    stream = []
+    for ins in code:
+        node = getattr(ins, "node", None)
+        try:
+            text = ins.to_string(0).strip()
+        except Exception as e:  # reported by the harness as a binding failure
+            text = "!" + type(e).__name__
+        stream.append(
+            {
+                "op": ins.op,
+                "text": text,
+                "out": _vname(ins.output) if isinstance(ins.output, IC10Register) else None,
+                "ins": [
+                    _vname(i.value) if isinstance(getattr(i, "value", None), IC10Register) else None
+                    for i in ins.inputs
+                ],
+                "fn": owner.get(id(ins), None),
+                "node": type(node).__name__ if node is not None else None,
+                "line": getattr(node, "lineno", None) if node is not None else None,
+            }
+        )
+    return stream
+
+
+def h1_pre(data, code):
+    """Instruction stream with virtual register names, before register allocation."""
+    if not enabled():
+        return
+    functions = {}
+    for fname, func in data.functions.items():
+        node = func.node
+        functions[fname] = {
+            "label": fname.replace("_", "."),
+            "nargs": len(node.args.args) if node is not None and node.args.args else 0,
+            "returns_value": bool(func.has_return_value) if node is not None else False,
+            "is_called": bool(func.is_called),
+            "inlined": bool(
+                node is not None and data.options.inline_functions and func.can_inline
+            ),
+            "is_constexpr": bool(func.is_constexpr),
+            "emitted": bool(func.code),
+        }
+    emit(
+        "h1_pre",
+        stream=_stream(data, code),
+        functions=functions,
+        push_pop=bool(data.options.use_push_pop_functions),
+    )
+
+
+def h1_post(data, code, used_registers):
+    """The same stream after allocation (physical names) and the registers counted."""
+    if not enabled():
+        return
+    emit("h1_post", stream=_stream(data, code), used=list(used_registers))
